@@ -66,7 +66,8 @@ def hunt(dec, res, prop, name, assumptions, goal, shapes, inputs, replay_fn, rol
                     break
             except ValueError:
                 continue
-        if shape is not None and "%s/%s" % (role_prefix, shape[0]) not in roles:
+        if shape is not None and "%s/%s" % (role_prefix, shape[0]) not in roles \
+                and "%s/%s" % (role_prefix, shape[0]) not in known_roles(prop):     # known roles: no need for a small witness
             higher = [Not(p2) for sn2, p2 in shapes[:[x[0] for x in shapes].index(shape[0])]]
             vals = minimise(dec, "%s#%d" % (name, k - 1), list(assumptions) + excl, goal, inputs, vals, [shape[1]] + higher)
             pairs = inputs.subst_pairs(vals)
@@ -175,7 +176,7 @@ def hunt_multi(dec, res, prop, name, assumptions, clauses, shapes, inputs, repla
                     break
             except ValueError:
                 continue
-        if shape is not None and role_of(failing, shape[0]) not in roles:
+        if shape is not None and role_of(failing, shape[0]) not in roles and role_of(failing, shape[0]) not in known_roles(prop):
             fgoal = dict(clauses)[failing]
             earlier = []
             for c, t in clauses:
